@@ -109,3 +109,225 @@ pub fn to_value<T: Serialize>(value: T) -> serde_json::Result<Value> {
 pub fn format(_args: std::fmt::Arguments<'_>) -> String {
     String::new()
 }
+
+// ---------------------------------------------------------------------------------------
+// parser side: serde_json::from_slice / from_str answered from a pre-drawn script
+
+use super::nde::{self, MapScript, ObjDe};
+use serde::Deserialize;
+
+pub const NPARSE: usize = 4;
+
+#[derive(Clone, Copy)]
+pub struct ParseScript {
+    /// false: the text is not valid JSON / not an object -> Err
+    pub ok: bool,
+    pub obj: MapScript,
+}
+
+impl ParseScript {
+    pub const fn empty() -> ParseScript {
+        ParseScript {
+            ok: false,
+            obj: MapScript::empty(),
+        }
+    }
+}
+
+pub static mut PARSE: [ParseScript; NPARSE] = [ParseScript::empty(); NPARSE];
+pub static mut N_PARSE: usize = 0;
+
+/// stands for serde_json::from_slice: the k-th call is answered by PARSE[k]
+pub fn from_slice<'a, T: Deserialize<'a>>(_v: &'a [u8]) -> serde_json::Result<T> {
+    let i = unsafe {
+        let i = N_PARSE;
+        N_PARSE += 1;
+        super::io::CUR_ORD = i as u8;
+        i
+    };
+    if i >= NPARSE {
+        return Err(nde::json_err());
+    }
+    let sc = unsafe { PARSE[i] };
+    if !sc.ok {
+        return Err(nde::json_err());
+    }
+    match T::deserialize(ObjDe(sc.obj)) {
+        Ok(t) => Ok(t),
+        Err(_) => Err(nde::json_err()),
+    }
+}
+
+/// what the k-th request's `parameters` value deserializes from (consulted by from_value;
+/// the Value object itself stays opaque)
+pub static mut FV: [nde::FvKind; NPARSE] = [nde::FvKind::EmptyObj; NPARSE];
+pub static mut N_FV: usize = 0;
+
+/// stands for serde_json::from_value: drives the real Deserialize impl of T with the value
+/// description the scenario holds for the request being served (ordinal = io::CUR_ORD)
+pub fn from_value<T: serde::de::DeserializeOwned>(v: Value) -> serde_json::Result<T> {
+    std::mem::forget(v);
+    let i = unsafe { super::io::CUR_ORD } as usize;
+    unsafe { N_FV += 1 };
+    if i >= NPARSE {
+        return Err(nde::json_err());
+    }
+    let r = match unsafe { FV[i] } {
+        nde::FvKind::NonObject => T::deserialize(nde::BoolDe(true)),
+        nde::FvKind::EmptyObj => T::deserialize(nde::EmptyMapDe),
+        nde::FvKind::Obj(k) => T::deserialize(nde::NestedDe(k)),
+    };
+    match r {
+        Ok(t) => Ok(t),
+        Err(_) => Err(nde::json_err()),
+    }
+}
+
+pub fn from_utf8_lossy(_v: &[u8]) -> std::borrow::Cow<'_, str> {
+    std::borrow::Cow::Borrowed("")
+}
+
+pub fn naive_memrchr(x: u8, text: &[u8]) -> Option<usize> {
+    let mut i = text.len();
+    while i > 0 {
+        i -= 1;
+        if text[i] == x {
+            return Some(i);
+        }
+    }
+    None
+}
+
+pub fn naive_memchr(x: u8, text: &[u8]) -> Option<usize> {
+    let mut i = 0;
+    while i < text.len() {
+        if text[i] == x {
+            return Some(i);
+        }
+        i += 1;
+    }
+    None
+}
+
+/// stands for std::io::BufReader::new: same type, same code, but a small buffer instead of
+/// 8 KiB, so that refills and "message larger than the internal buffer" happen at sizes CBMC
+/// can reach. BUFCAP is set by the harness.
+pub const BUFCAP: usize = 4;
+pub fn small_bufreader<R: std::io::Read>(inner: R) -> std::io::BufReader<R> {
+    std::io::BufReader::with_capacity(BUFCAP, inner)
+}
+
+/// stands for std's private `std::io::read_until` (the body of BufRead::read_until):
+/// same contract — append bytes up to and including `delim` or until EOF, return the count —
+/// written byte-at-a-time (std uses memchr + extend_from_slice, whose symbolic-length copies
+/// CBMC cannot handle). I/O errors are passed through (std additionally retries on
+/// ErrorKind::Interrupted, which no harness reader produces).
+pub fn read_until<R: std::io::BufRead + ?Sized>(r: &mut R, delim: u8, buf: &mut Vec<u8>) -> std::io::Result<usize> {
+    let mut read = 0;
+    loop {
+        let (done, used) = {
+            let available = match r.fill_buf() {
+                Ok(n) => n,
+                Err(e) => return Err(e),
+            };
+            let mut i = 0;
+            let mut done = false;
+            while i < available.len() {
+                let b = available[i];
+                buf.push(b);
+                i += 1;
+                if b == delim {
+                    done = true;
+                    break;
+                }
+            }
+            (done, i)
+        };
+        r.consume(used);
+        read += used;
+        if done || used == 0 {
+            return Ok(read);
+        }
+    }
+}
+
+/// carrier for stubbing the provided trait method std::io::BufRead::read_until
+pub trait RuStub: std::io::BufRead {
+    fn read_until(&mut self, delim: u8, buf: &mut Vec<u8>) -> std::io::Result<usize> {
+        read_until(self, delim, buf)
+    }
+}
+impl<T: std::io::BufRead + ?Sized> RuStub for T {}
+
+// ---------------------------------------------------------------------------------------
+// interface table: behavioural model of HashMap<Cow<str>, Box<dyn Interface>> lookups.
+// hashbrown + SipHash on a symbolic key costs minutes per lookup (DESIGN P8); the harness
+// keeps the registered names / objects in a ghost table and the two lookups used by
+// VarlinkService are answered from it by exact string equality (HashMap's contract).
+
+use std::borrow::Borrow;
+use std::collections::HashMap;
+use std::hash::{BuildHasher, Hash};
+
+pub const NREG: usize = 2;
+pub static mut REG_N: usize = 0;
+pub static mut REG_NAMES: [&'static str; NREG] = [""; NREG];
+/// each entry points to a leaked `V` (the map's value type)
+pub static mut REG_VALS: [*const u8; NREG] = [std::ptr::null(); NREG];
+pub static mut N_LOOKUPS: usize = 0;
+
+pub fn reg_find(s: &str) -> Option<usize> {
+    let mut i = 0;
+    while i < NREG {
+        if i < unsafe { REG_N } && tagser::key_eq(unsafe { REG_NAMES[i] }, s) {
+            return Some(i);
+        }
+        i += 1;
+    }
+    None
+}
+
+pub fn contains_key<K, V, S, A: std::alloc::Allocator, Q: ?Sized>(_m: &HashMap<K, V, S, A>, k: &Q) -> bool
+where
+    K: Borrow<Q> + Eq + Hash,
+    Q: Hash + Eq,
+    S: BuildHasher,
+{
+    // only instantiated with Q = str by the code under check
+    let s: &str = unsafe { std::mem::transmute_copy::<&Q, &str>(&k) };
+    unsafe { N_LOOKUPS += 1 };
+    reg_find(s).is_some()
+}
+
+/// HashMap::get (also the body of `map[key]`, which is get().expect())
+pub fn get<'a, K, V, S, A: std::alloc::Allocator, Q: ?Sized>(_m: &'a HashMap<K, V, S, A>, k: &Q) -> Option<&'a V>
+where
+    K: Borrow<Q> + Eq + Hash,
+    Q: Hash + Eq,
+    S: BuildHasher,
+{
+    let s: &str = unsafe { std::mem::transmute_copy::<&Q, &str>(&k) };
+    unsafe { N_LOOKUPS += 1 };
+    match reg_find(s) {
+        Some(i) => Some(unsafe { &*(REG_VALS[i] as *const V) }),
+        None => None,
+    }
+}
+
+pub fn fixed_random_state() -> std::hash::RandomState {
+    unsafe { std::mem::transmute::<(u64, u64), std::hash::RandomState>((0, 0)) }
+}
+
+/// stands for <serde_json::Value as Clone>::clone on the values the harnesses create
+/// (null / bool / number / string). serde_json's recursive clone of arrays and objects is
+/// third-party code; CBMC cannot fold its recursion once a Value's discriminant is an
+/// if-then-else (probe_m). Reaching an array/object here is reported as a failure.
+pub fn value_clone_shallow(v: &Value) -> Value {
+    match v {
+        Value::Null => Value::Null,
+        Value::Bool(b) => Value::Bool(*b),
+        Value::Number(n) => Value::Number(n.clone()),
+        Value::String(s) => Value::String(s.clone()),
+        _ => panic!("harness model: clone of a compound serde_json::Value"),
+    }
+}
